@@ -167,8 +167,10 @@ def apply_png_predictor(
         msg = "Unsupported `bitspercomponent': %d" % bitspercomponent
         raise PDFValueError(msg)
 
-    nbytes = colors * columns * bitspercomponent // 8
-    bpp = colors * bitspercomponent // 8  # number of bytes per complete pixel
+    # bytes per row, rounding up to a whole byte (rows are byte aligned)
+    nbytes = (colors * columns * bitspercomponent + 7) // 8
+    # number of bytes per complete pixel, rounding up to one
+    bpp = max(1, colors * bitspercomponent // 8)
     buf = []
     # the row above the first row is all zeros and as long as a row (not `columns`:
     # a row has `colors` samples per column)
